@@ -33,11 +33,19 @@ import (
 	"github.com/plgd-dev/go-coap/v3/message/pool"
 	"github.com/plgd-dev/go-coap/v3/net/blockwise"
 	"github.com/plgd-dev/go-coap/v3/net/responsewriter"
+	"github.com/plgd-dev/go-coap/v3/options/config"
 	"github.com/plgd-dev/go-coap/v3/udp/client"
 	"github.com/plgd-dev/go-coap/v3/udp/coder"
 )
 
 func init() { props["C13"] = runC13 }
+
+// C12 runs the same histories under the pool tracker: c13PoolFor (when set) supplies the message pool of a
+// side; c13HijackWait bounds the wait of the receive path for the caller's release of a handed-over message.
+var (
+	c13PoolFor    func(side string) *pool.Pool
+	c13HijackWait = 100 * time.Millisecond
+)
 
 // watchdog for every wait; after the first history that hung, later histories give up sooner
 var c13Watch = 30 * time.Second
@@ -485,6 +493,26 @@ func newC13Side(name string, mid0 int32, le int, link *c13Link, handler func(sid
 	s.sess = &c13Sess{memSession: newMemSession(64 * 1024), link: link}
 	cfg := client.DefaultConfig
 	cfg.MessagePool = pool.New(256, 2048)
+	if c13PoolFor != nil {
+		cfg.MessagePool = c13PoolFor(name)
+	}
+	if activeTracker != nil {
+		// C12: a message handed over to a waiting caller is released by that caller before the receive
+		// path runs its own clean-up (the order in which a lost hijack flag shows as a double release)
+		cfg.ProcessReceivedMessage = func(req *pool.Message, cc *client.Conn, handler config.HandlerFunc[*client.Conn]) {
+			defer func() {
+				if r := recover(); r != nil {
+					activeTracker.notePanic(r) // a panic on the receive path is an observable, not a crash of hx
+				}
+			}()
+			cc.ProcessReceivedMessageWithHandler(req, func(w *responsewriter.ResponseWriter[*client.Conn], r *pool.Message) {
+				handler(w, r)
+				if r.IsHijacked() {
+					activeTracker.waitReleased(r, c13HijackWait)
+				}
+			})
+		}
+	}
 	cfg.GetMID = func() int32 { return mid0 }
 	cfg.GetToken = getTok
 	cfg.Errors = func(error) {
@@ -502,6 +530,8 @@ func newC13Side(name string, mid0 int32, le int, link *c13Link, handler func(sid
 	cfg.BlockwiseSZX = blockwise.SZX64
 	h := handler(s)
 	cfg.Handler = func(w *responsewriter.ResponseWriter[*client.Conn], r *pool.Message) {
+		trkHold(r) // C12: the application holds the request for the duration of the handler
+		defer trkUnhold(r)
 		if string(r.Token()) == string(barrierToken) {
 			s.barrier <- struct{}{}
 			return
@@ -707,9 +737,12 @@ func (p *c13Run) opDo(k int, upload int, ctxMs int, wantErr bool, bw func()) {
 			resp, err = p.a.cc.Get(ctx, path)
 		}
 		if err == nil {
+			trkHold(resp)
 			if resp.Body() != nil {
 				_, _ = resp.ReadBody()
 			}
+			trkUnhold(resp)
+			trkAppRel(resp)
 			p.a.cc.ReleaseMessage(resp)
 		}
 		return err
@@ -758,6 +791,9 @@ func (p *c13Run) opAbandon(up bool, k int) {
 			resp, err = p.a.cc.Get(ctx, path)
 		}
 		if err == nil {
+			trkHold(resp)
+			trkUnhold(resp)
+			trkAppRel(resp)
 			p.a.cc.ReleaseMessage(resp)
 		}
 		done <- err
@@ -884,8 +920,12 @@ func (p *c13Run) opHang(id int, k int, dropped bool, share int) {
 	go func() {
 		resp, err := p.a.cc.Do(req)
 		if err == nil {
+			trkHold(resp)
+			trkUnhold(resp)
+			trkAppRel(resp)
 			p.a.cc.ReleaseMessage(resp)
 		}
+		trkAppRel(req)
 		p.a.cc.ReleaseMessage(req)
 		h.done <- err
 	}()
@@ -975,6 +1015,8 @@ func (p *c13Run) opObserve(k int, dup bool) {
 	}
 	err, ok := p.call(func() error {
 		o, err := p.a.cc.Observe(context.Background(), path, func(n *pool.Message) {
+			trkHold(n) // C12: the notification belongs to the application until the callback returns
+			defer trkUnhold(n)
 			reg.gotLock.Lock()
 			reg.got++
 			reg.gotLock.Unlock()
@@ -1029,6 +1071,7 @@ func (p *c13Run) opNotify(id int, n int, con bool) {
 		_, ok := p.call(func() error {
 			m := p.b.cc.AcquireMessage(context.Background())
 			defer p.b.cc.ReleaseMessage(m)
+			defer trkAppRel(m)
 			m.SetCode(codes.Content)
 			m.SetToken(reg.tok)
 			m.SetObserve(seq)
@@ -1124,6 +1167,7 @@ func (p *c13Run) opOneway(dup bool) {
 	err, ok := p.call(func() error {
 		m := p.a.cc.AcquireMessage(context.Background())
 		defer p.a.cc.ReleaseMessage(m)
+		defer trkAppRel(m)
 		t, _ := p.newTok()
 		_ = m.SetupPost("/a", t, message.TextPlain, bytes.NewReader([]byte("x")))
 		m.SetType(message.NonConfirmable)
@@ -1306,11 +1350,11 @@ func runC13History(le int, ops []string) (string, bool, []string) {
 			continue
 		}
 		p.apply(op)
-		if p.hung {
-			break
+		if p.hung || (activeTracker != nil && activeTracker.bad()) {
+			break // (C12: the trace already contains a violation; the corrupted pool would only make the rest hang)
 		}
 	}
-	if !p.hung {
+	if !p.hung && !(activeTracker != nil && activeTracker.bad()) {
 		p.finish()
 	}
 	bad := append([]string{}, p.flags...)
